@@ -2,8 +2,10 @@
 // compression_time_limit. Every harness links with -Wl,--wrap=gettimeofday so a run is a pure function of
 // (tree, seed, tier).
 #include <sys/time.h>
+// The constant can be changed by a check: what the library does must not depend on WHICH instant the (frozen) clock shows - only elapsed time may matter.
+extern "C" { long g_verif_clock_sec = 1000000; }
 extern "C" int __wrap_gettimeofday(struct timeval *tv, void *tz) {
     (void)tz;
-    if (tv) { tv->tv_sec = 1000000; tv->tv_usec = 0; }
+    if (tv) { tv->tv_sec = g_verif_clock_sec; tv->tv_usec = 0; }
     return 0;
 }
